@@ -40,7 +40,10 @@ MUTANTS = [
  ("c12_clear_only_on_success", "C12", [(L, "    _VAR.clear()\n    _PARAMS.clear()\n\n    lexer = blackbirdLexer(data)", "    lexer = blackbirdLexer(data)"),
                                        (L, "    walker.walk(blackbird, tree)\n\n    return blackbird.program", "    walker.walk(blackbird, tree)\n    _VAR.clear()\n    _PARAMS.clear()\n\n    return blackbird.program")]),
  ("c12_forvar_not_deleted_on_error", "C12", [(L, "    _VAR.clear()\n    _PARAMS.clear()\n\n    lexer = blackbirdLexer(data)", "    if not _PARAMS:\n        _VAR.clear()\n    _PARAMS.clear()\n\n    lexer = blackbirdLexer(data)")]),
+ ("c12_cleanup_only_on_exception", "C12", [(L, "    _VAR.clear()\n    _PARAMS.clear()\n\n    lexer = blackbirdLexer(data)", "    lexer = blackbirdLexer(data)"),
+                                           (L, "    walker.walk(blackbird, tree)\n\n    return blackbird.program", "    try:\n        walker.walk(blackbird, tree)\n    except Exception:\n        _VAR.clear()\n        _PARAMS.clear()\n        raise\n\n    return blackbird.program")]),
  # ---- C07 -------------------------------------------------------------------
+ ("c07_swallow_permission_error", "C07", [(L, "        data = antlr4.FileStream(filename)\n\n        # parse the included file", "        try:\n            data = antlr4.FileStream(filename)\n        except PermissionError:\n            warnings.warn(\"cannot read include \" + filename)\n            return\n\n        # parse the included file")]),
  ("c07_load_uses_getcwd", "C07", [(I, "    cwd = os.path.dirname(filename)\n", "    cwd = os.getcwd()\n")]),
  ("c07_nested_relative_to_top", "C07", [(L, "        listener = BlackbirdListener(cwd=cwd)\n", "        listener = BlackbirdListener(cwd=self._cwd)\n")]),
  ("c07_dedupe_by_basename", "C07", [(L, "            if f[0] == filename:\n", "            if os.path.basename(f[0]) == os.path.basename(filename):\n")]),
